@@ -46,6 +46,34 @@ MUTANTS = [
     ("crash-interrupt-source-7", L + "machine/board.rs", "        InterruptSource::from_u8(source).expect(\"infallible\")", "        InterruptSource::from_u8(if source == 7 && self.contains(DAICR::FALLING) { 8 } else { source }).expect(\"infallible\")", ["C13"]),
     ("crash-nan-temperature", L + "machine/board.rs", "            warn!(\"Temperature value < 0.0. Set to 0.0!\");\n            self.temp = 0.0;", "            warn!(\"Temperature value < 0.0. Set to 0.0!\");\n            assert!(!value.is_nan());\n            self.temp = 0.0;", ["C13"]),
     ("crash-timer-div-overflow", L + "machine/bus.rs", "            self.int_timer.div3 = (orig & 0xFF00) + lower;", "            self.int_timer.div3 = ((orig & 0xFF00) + lower) * (self.int_timer.div3 + 1);", ["C13"]),
+    # ---- bus map (C10)
+    ("bus-write-f0-is-ram", L + "machine/bus.rs", "        if addr <= 0xEF {\n            self.ram[addr] = byte;", "        if addr < 0xEF {\n            self.ram[addr] = byte;", ["C10"]),
+    ("bus-fe-write-hits-input", L + "machine/bus.rs", "            self.output_reg[0] = byte;", "            self.output_reg[0] = byte;\n            self.input_reg[2] = byte;", ["C10"]),
+    ("bus-f9-read-returns-mask", L + "machine/bus.rs", "            self.misr.bits()", "            self.misr.bits() | self.micr.bits()", ["C10"]),
+    ("bus-f1-write-to-port1", L + "machine/bus.rs", "            self.board.set_digital_output2(byte);", "            self.board.set_digital_output1(byte);", ["C10", "C14"]),
+    ("bus-timer-write-clobbers-input", L + "machine/bus.rs", "            self.int_timer.div3 = (orig & 0xFF00) + lower;", "            self.int_timer.div3 = (orig & 0xFF00) + lower;\n            if byte == 0x99 { self.input_reg[0] = byte; }", ["C10"]),
+    ("bus-uart-write-hits-ram", L + "machine/bus.rs", "            self.uart_send = byte;", "            self.uart_send = byte;\n            self.ram[0xEF] = byte;", ["C10"]),
+    # ---- board (C14)
+    ("board-comp1-ge", L + "machine/board.rs", "        let new_value = self.analog_inputs[0] > analog;", "        let new_value = self.analog_inputs[0] >= analog;", ["C14"]),
+    ("board-temp-forgets-comp2", L + "machine/board.rs", "            self.temp = 0.0;\n        }\n        self.update_comp2();", "            self.temp = 0.0;\n        }\n        if value < 4.9 { self.update_comp2(); }", ["C14"]),
+    ("board-uio2-direction-inverted", L + "machine/board.rs", "        if self.uio_dir[1] {\n            return;\n        }", "        if !self.uio_dir[1] {\n            return;\n        }", ["C14"]),
+    ("board-uio3-raises-on-both-edges", L + "machine/board.rs", "            if self.dasr.contains(DASR::UIO_3) && !value {\n                if self.daicr.contains(DAICR::FALLING) {", "            if self.dasr.contains(DASR::UIO_3) && !value {\n                if true {", ["C14"]),
+    ("board-clamp-nan-to-5", L + "machine/board.rs", "        } else if value >= 0.0 {\n            warn!(\"I2 > 5V. Setting 5V\");", "        } else if !(value < 0.0) {\n            warn!(\"I2 > 5V. Setting 5V\");", ["C14"]),
+    ("board-dac2-comparator-uses-dac1", L + "machine/board.rs", "        let analog = self.digital_output2 as f32 / 100.0;\n        // TODO: Verify (J9)", "        let analog = if self.digital_output2 == 0x80 { self.digital_output1 } else { self.digital_output2 } as f32 / 100.0;\n        // TODO: Verify (J9)", ["C14"]),
+    ("board-icr-write-keeps-source-flag-raise", L + "machine/board.rs", "    pub fn set_jumper2(&mut self, plugged: bool) {\n", "    pub fn set_jumper2(&mut self, plugged: bool) {\n        if plugged && self.daicr.contains(DAICR::IE) { self.set_int_ff(); }\n", ["C14"]),
+    ("board-fan-period-offset", L + "machine/board.rs", "        u8::MAX - (u8::MAX as f32 * self.fan_rpm as f32 / MAX_FAN_RPM as f32) as u8", "        u8::MAX - (u8::MAX as f32 * self.fan_rpm as f32 / (MAX_FAN_RPM + 200) as f32) as u8", ["C14"]),
+    # ---- resets (C07)
+    ("reset-keeps-last-bus-read", L + "machine/raw/mod.rs", "        self.last_bus_read = 0;\n        self.bus.cpu_reset();", "        self.bus.cpu_reset();", ["C07"]),
+    ("reset-keeps-pending-interrupt", L + "machine/raw/mod.rs", "        self.pending_edge_interrupt = None;\n        self.state = State::Running;", "        self.state = State::Running;", ["C07"]),
+    ("reset-master-clears-ram", L + "machine/bus.rs", "        self.input_reg = [0; 4];\n        self.int_timer.reset();", "        self.input_reg = [0; 4];\n        self.ram.reset();\n        self.int_timer.reset();", ["C07"]),
+    ("reset-master-forgets-timer", L + "machine/bus.rs", "        self.input_reg = [0; 4];\n        self.int_timer.reset();", "        self.input_reg = [0; 4];", ["C07"]),
+    ("reset-cpu-clears-inputs", L + "machine/bus.rs", "        self.micr = MICR::empty();\n        self.ucr = UCR::empty();\n    }", "        self.micr = MICR::empty();\n        self.ucr = UCR::empty();\n        self.input_reg[1] = 0;\n    }", ["C07"]),
+    ("reset-cpu-keeps-ucr", L + "machine/bus.rs", "        self.micr = MICR::empty();\n        self.ucr = UCR::empty();\n    }", "        self.micr = MICR::empty();\n    }", ["C07"]),
+    ("reset-board-keeps-uio-dir", L + "machine/board.rs", "        self.fan_rpm = 0;\n        self.uio_dir = [false; 3];", "        self.fan_rpm = 0;", ["C07"]),
+    ("reset-board-clears-temp", L + "machine/board.rs", "        self.fan_rpm = 0;\n        self.uio_dir = [false; 3];", "        self.fan_rpm = 0;\n        self.temp = 0.0;\n        self.uio_dir = [false; 3];", ["C07"]),
+    ("reset-load-keeps-stacksize-16", L + "machine/mod.rs", "        if program.stacksize != Stacksize::NotSet {", "        if program.stacksize != Stacksize::NotSet && program.stacksize != Stacksize::_48 {", ["C07"]),
+    ("reset-load-skips-ram-clear", L + "machine/mod.rs", "        self.master_reset();\n        self.raw_mut().bus_mut().reset_ram();", "        self.master_reset();", ["C07"]),
+    ("reset-cpu-resets-step-mode-alu", L + "machine/raw/mod.rs", "        self.alu_output = AluOutput::default();\n", "", ["C07"]),
     # ---- cycles (C15)
     ("cyc-wait-also-for-io", L + "machine/raw/mod.rs", "            if *register_out_a <= 0xEF {\n                trace!(\"Generating artificial wait signal\");\n                machine.pending_wait_for_memory = Some(MemoryWait);\n            }\n        } else {\n            machine.last_bus_read = 0;", "            if *register_out_a <= 0xFB {\n                trace!(\"Generating artificial wait signal\");\n                machine.pending_wait_for_memory = Some(MemoryWait);\n            }\n        } else {\n            machine.last_bus_read = 0;", ["C15"]),
     ("cyc-no-wait-reading-0x80", L + "machine/raw/mod.rs", "            if *register_out_a <= 0xEF {\n                trace!(\"Generating artificial wait signal\");\n                machine.pending_wait_for_memory = Some(MemoryWait);\n            }\n        } else {\n            machine.last_bus_read = 0;", "            if *register_out_a <= 0xEF && *register_out_a != 0x80 {\n                trace!(\"Generating artificial wait signal\");\n                machine.pending_wait_for_memory = Some(MemoryWait);\n            }\n        } else {\n            machine.last_bus_read = 0;", ["C15"]),
